@@ -95,7 +95,7 @@ fn main() {
             for run in from..to {
                 rt::RNG.store(seed ^ run.wrapping_mul(0xD6E8FEB86659FD93), std::sync::atomic::Ordering::Relaxed);
                 let n = 20 + rt::below(180);
-                let plan: Vec<usize> = (0..n).map(|_| scenario::pick_spec()).collect();
+                let plan: Vec<usize> = (0..n).map(|_| scenario::pick_spec_history()).collect();
                 calls += n as u64;
                 let mut h: u64 = 0xcbf29ce484222325;
                 for p in &plan {
